@@ -1,7 +1,188 @@
+(* C21 — theorems.  Model: Model.v; lemmas: Proofs.v, ProofsRelease.v, ProofsHist.v.
+   `valid b` = every allocation points at an existing attribute.  In every theorem about release the list p is the
+   de-duplicated request in ANY processing order (Go map iteration order is universally quantified). *)
 From Coq Require Import List NArith ZArith Bool Arith.
-From Verif.C21 Require Import Model Spec.
+From Verif.C21 Require Import Model Spec Proofs ProofsRelease ProofsHist.
 Import ListNotations.
 
-Theorem c21_new_block_wf : forall size seq0, wf_block_b (new_block size seq0) = true -> bsize (new_block size seq0) = size.
-Proof. intros. unfold bsize, new_block. simpl. apply repeat_length. Qed.
-Print Assumptions c21_new_block_wf.
+(* A release naming a stale sequence number never frees the address: the whole request (for that block) fails with
+   a conflict class and the block is returned unchanged - nothing else in the request is released either. *)
+Theorem c21_stale_seq_rejected : forall cd t b p r s, valid b ->
+  In r p -> (rq_ord r < bsize b)%nat -> rq_seq r = Some s -> s <> seq_of b (rq_ord r) ->
+  exists c, blk_release_ord cd t b p = (b, RRErr c) /\ bad_class c.
+Proof. exact stale_seq_rejected. Qed.
+Print Assumptions c21_stale_seq_rejected.
+
+(* ... and so does a release naming a handle that is not the owner's. *)
+Theorem c21_wrong_handle_rejected : forall cd t b p r oh tag h, valid b ->
+  In r p -> (rq_ord r < bsize b)%nat -> state_of b (rq_ord r) = Live oh tag -> rq_handle r = Some h -> oh <> Some h ->
+  exists c, blk_release_ord cd t b p = (b, RRErr c) /\ bad_class c.
+Proof. exact wrong_handle_rejected. Qed.
+Print Assumptions c21_wrong_handle_rejected.
+
+(* Positive form, for every request and order: a live address keeps its owner through a release unless an entry names
+   it whose sequence number (if given) is the stored one and whose handle (if given) is the owner. *)
+Theorem c21_release_only_named : forall cd t b p o oh tag, valid b ->
+  state_of b o = Live oh tag ->
+  state_of (fst (blk_release_ord cd t b p)) o = Live oh tag
+  \/ exists r, In r p /\ rq_ord r = o /\ seq_matches b r /\ (rq_handle r = None \/ rq_handle r = oh).
+Proof. exact release_only_named. Qed.
+Print Assumptions c21_release_only_named.
+
+(* Complete description of a release: either some entry is bad (then: error, block unchanged), or every ordinal named by
+   a matching entry for a live address goes into cooldown stamped with the current time (and is freed at once only
+   under a negative cooldown), the not-live ones are reported as not allocated, and all other ordinals only see GC. *)
+Theorem c21_release_effect : forall cd t b p, valid b ->
+  match scan b p [] [] [] with
+  | inr c => blk_release_ord cd t b p = (b, RRErr c) /\ bad_class c
+  | inl (un, ords, cnt) =>
+      snd (blk_release_ord cd t b p) = RROk un cnt /\
+      un = map rq_ord (filter (is_un b) p) /\ ords = map rq_ord (filter (is_rel b) p) /\
+      (ords = [] -> fst (blk_release_ord cd t b p) = b) /\
+      forall o, state_of (fst (blk_release_ord cd t b p)) o =
+                match ords with
+                | [] => state_of b o
+                | _ => gcst cd t (if memb o ords && Nat.ltb o (bsize b) then Cooling t else state_of b o)
+                end
+  end.
+Proof. exact release_effect. Qed.
+Print Assumptions c21_release_effect.
+
+(* Releasing addresses that are already released (free or in cooldown), without a sequence number or with the stored
+   one: the block is returned unchanged and every address is reported as not allocated. *)
+Theorem c21_release_idempotent : forall cd t b p, valid b ->
+  (forall r, In r p -> (rq_ord r < bsize b)%nat /\ seq_matches b r /\ is_live b (rq_ord r) = false) ->
+  blk_release_ord cd t b p = (b, RROk (map rq_ord p) []).
+Proof. exact release_idempotent. Qed.
+Print Assumptions c21_release_idempotent.
+
+(* ... and such an entry inside a larger request has no influence on the resulting block. *)
+Theorem c21_release_unalloc_irrelevant : forall cd t b p r, valid b ->
+  classify b r = CUnalloc -> fst (blk_release_ord cd t b (r :: p)) = fst (blk_release_ord cd t b p).
+Proof. exact release_unalloc_irrelevant. Qed.
+Print Assumptions c21_release_unalloc_irrelevant.
+
+(* Documented deviation (design/ipam/ipam-core-library.md: "a release call against an IP already in cooldown is not an
+   error"): release() restamps the ordinal's sequence number, so repeating the SAME request (same address, handle and
+   sequence number) while the address is in cooldown is answered with a conflict, whereas after releaseByHandle it is
+   answered "not allocated".  Harmless for the block (unchanged), but the rest of the request fails too. *)
+Theorem c21_rerelease_with_seq_conflicts_refuted :
+  exists b r, valid b /\ is_live b (rq_ord r) = true /\
+    let b1 := persist (fst (blk_release_ord 5 0 b [r])) in
+    snd (blk_release_ord 5 0 b [r]) = RROk [] [(1%N, 1%nat)] /\
+    blk_release_ord 5 1 b1 [r] = (b1, RRErr CBadSeq).
+Proof.
+  exists {| bk_allocs := [Some 0%nat]; bk_unalloc := []; bk_attrs := [live_attr (Some 1%N) 1%N]; bk_seq := 8%N;
+            bk_seqs := [(0%nat, 7%N)] |},
+         {| rq_ord := 0; rq_handle := Some 1%N; rq_seq := Some 7%N |}.
+  split; [|vm_compute; auto].
+  intros o j. destruct o as [|[|o]]; simpl; intros X; inversion X; auto.
+Qed.
+Print Assumptions c21_rerelease_with_seq_conflicts_refuted.
+
+(* Cooldown, block level: garbage collection at ANY time t with ANY setting frees exactly the ordinals whose stamp r
+   satisfies r + cooldown < t (all of them under a negative cooldown) and changes no other state. *)
+Theorem c21_gc_frees_only_cooled : forall cd t b o, valid b ->
+  state_of (gc cd t b) o = match state_of b o with
+                           | Cooling r => if cooled cd t r then Free else Cooling r
+                           | s => s end.
+Proof. intros. rewrite state_gc by auto. unfold gcst. destruct (state_of b o); auto. Qed.
+Print Assumptions c21_gc_frees_only_cooled.
+
+(* Cooldown, the queue: the ONLY ways into Unallocated.  After garbage collection / release / release-by-handle at
+   time t every member of the queue was already in it, or was in cooldown with a stamp r such that r + cooldown < t,
+   or (negative cooldown only) was live and released by this very call; assign and auto-assign add nothing, and
+   auto-assign hands out only members of the queue.
+   PARTIAL: this is the one-operation statement.  Missing for the history-level statement "released at t => not handed
+   out before t + cooldown": the invariant that nothing but the one-second truncation of a datastore round trip
+   changes the stamp of an ordinal in cooldown (needs: Unallocated lists only free ordinals, no duplicates; cooldown
+   attributes carry no handle). *)
+Theorem c21_cooldown_partial : forall cd t b x, valid b ->
+  (In x (bk_unalloc (gc cd t b)) -> In x (bk_unalloc b) \/ exists r, state_of b x = Cooling r /\ cooled cd t r = true)
+  /\ (forall p, In x (bk_unalloc (fst (blk_release_ord cd t b p))) -> origin cd t b x)
+  /\ (forall h sq, In x (bk_unalloc (fst (blk_release_by_handle cd t b h sq))) ->
+        origin cd t b x \/ (exists r, state_of b x = Cooling r /\ owned_by b x h))
+  /\ (forall num h tag rsv, In x (bk_unalloc (fst (blk_auto_assign b num h tag rsv))) -> In x (bk_unalloc b))
+  /\ (forall num h tag rsv, In x (snd (blk_auto_assign b num h tag rsv)) -> In x (bk_unalloc b))
+  /\ (forall o h tag, In x (bk_unalloc (fst (blk_assign b o h tag))) -> In x (bk_unalloc b)).
+Proof.
+  intros cd t b x V. repeat split.
+  - rewrite unalloc_gc. intros H. apply in_app_or in H. destruct H as [H|H]; auto. right. eapply cold_ords_spec; eauto.
+  - intros p. apply unalloc_release; auto.
+  - intros h sq. apply unalloc_rbh; auto.
+  - intros. eapply unalloc_auto; eauto.
+  - intros. eapply auto_from_queue; eauto.
+  - intros. eapply unalloc_assign; eauto.
+Qed.
+Print Assumptions c21_cooldown_partial.
+
+(* FIFO: auto-assign takes the first num eligible (= not reserved) ordinals of Unallocated, in queue order; what stays
+   behind is the queue minus those, order preserved; garbage collection APPENDS the ordinals it frees. *)
+Theorem c21_fifo : forall rsv un num cd t b,
+  fst (take_free rsv num un) = firstn num (filter (nonres rsv) un)
+  /\ snd (take_free rsv num un) = minus_first un (fst (take_free rsv num un))
+  /\ bk_unalloc (gc cd t b) = bk_unalloc b ++ cold_ords cd t b.
+Proof. intros. split; [apply take_free_spec | split; [apply take_free_rest | reflexivity]]. Qed.
+Print Assumptions c21_fifo.
+
+(* Release by handle: exactly the ordinals whose owner attribute carries the handle (and the sequence number, if one is
+   given) go into cooldown, their number is returned, every other ordinal only sees garbage collection. *)
+Theorem c21_by_handle_exact : forall cd t b h sq o, valid b ->
+  (In o (rbh_ords b h sq) <->
+     (o < bsize b)%nat /\ owned_by b o h /\ match sq with Some s => s = seq_of b o | None => True end)
+  /\ state_of (fst (blk_release_by_handle cd t b h sq)) o =
+       (if memb o (rbh_ords b h sq) then gcst cd t (Cooling t)
+        else match handle_idxs (bk_attrs b) h with [] => state_of b o | _ => gcst cd t (state_of b o) end)
+  /\ snd (blk_release_by_handle cd t b h sq) = length (rbh_ords b h sq).
+Proof. intros. split; [apply rbh_ords_spec | split; [apply rbh_effect; auto | apply rbh_count]]. Qed.
+Print Assumptions c21_by_handle_exact.
+
+(* Every transaction (client call on a stored block) that writes increases the block SequenceNumber by one, and a
+   handed-out ordinal carries the number the block had when it was read. *)
+Theorem c21_seq_strictly_monotone : forall cd t b op b',
+  fst (txn cd t b op) = Some b' -> bk_seq b' = (bk_seq b + 1)%N.
+Proof. exact txn_seq_written. Qed.
+Print Assumptions c21_seq_strictly_monotone.
+
+(* ABA: allocate -> any history of transactions by any clients (releases, GC, other allocations; any clock readings and
+   cooldown settings) -> reallocate: the address gets a strictly larger sequence number, so a release carrying the
+   old number is stale and, by c21_stale_seq_rejected, rejected. *)
+Theorem c21_aba : forall cd1 t1 b op1 o b1 hist cd2 t2 op2 b3,
+  hands_out cd1 t1 b op1 o b1 ->
+  hands_out cd2 t2 (run hist b1) op2 o b3 ->
+  (seq_of b1 o < seq_of b3 o)%N.
+Proof. exact aba_strict. Qed.
+Print Assumptions c21_aba.
+
+(* the hypotheses are satisfiable: allocate, release (cooldown 1s), time passes, reallocate the same ordinal *)
+Example c21_aba_example :
+  let b0 := new_block 1 100 in
+  let b1 := txn_block 1 0 b0 (TAuto (Some 1%N) 1%N 1 []) in
+  let h := [{| tx_cd := 1; tx_t := 5; tx_op := TRbh 1%N |}] in
+  hands_out 1 0 b0 (TAuto (Some 1%N) 1%N 1 []) 0 b1 /\
+  hands_out 1 3000000000 (run h b1) (TAuto (Some 2%N) 1%N 1 []) 0
+            (txn_block 1 3000000000 (run h b1) (TAuto (Some 2%N) 1%N 1 []))
+  /\ seq_of b1 0 = 100%N
+  /\ seq_of (txn_block 1 3000000000 (run h b1) (TAuto (Some 2%N) 1%N 1 [])) 0 = 102%N.
+Proof. vm_compute. repeat split; eexists; split; eauto; simpl; auto. Qed.
+
+(* ... and the cooldown is honoured in it: one nanosecond too early nothing is handed out *)
+Example c21_cooldown_example :
+  let b0 := new_block 1 100 in
+  let b1 := txn_block 1 0 b0 (TAuto (Some 1%N) 1%N 1 []) in
+  let b2 := txn_block 1 5 b1 (TRbh 1%N) in
+  txn 1 1000000000 b2 (TAuto (Some 2%N) 1%N 1 []) = (None, ResAuto [])
+  /\ snd (txn 1 1000000001 b2 (TAuto (Some 2%N) 1%N 1 [])) = ResAuto [0%nat].
+Proof. vm_compute. auto. Qed.
+
+(* the model's runs are accepted by the oracle on a scripted history (sanity of Spec.v against Model.v) *)
+Example c21_oracle_accepts_model_run :
+  let ops := [ (0%N, BAuto (Some 1%N) 1%N 2 [1%nat]); (1%N, BRelease [{| rq_ord := 0; rq_handle := Some 1%N; rq_seq := None |}]);
+               (2%N, BPersist); (3000000000%N, BGC); (3000000001%N, BAuto (Some 2%N) 1%N 3 []) ] in
+  let obs := (fix go b l := match l with
+                            | [] => []
+                            | (t, o) :: rest => let '(b', r) := bstep 2 t b o in
+                                                {| bo_t := t; bo_cd := 2; bo_op := o; bo_blk := b'; bo_res := r |} :: go b' rest
+                            end) (new_block 4 50) ops in
+  check_case (BlockCase 4 50 obs) = (true, true).
+Proof. vm_compute. reflexivity. Qed.
